@@ -222,6 +222,9 @@ type Step struct {
 	// StdinFrom: take stdin bytes from the stdout of an earlier step (index),
 	// keeping this step's delivery plan. nil: use Step.Stdin as is.
 	StdinFrom *int `json:"stdin_from,omitempty"`
+	// CarryFrom: the files an earlier step created still exist when this step
+	// starts (durable state between two runs: caches, outputs).
+	CarryFrom *int `json:"carry_from,omitempty"`
 	// GoMaxProcs sets GOMAXPROCS of the worker process (0: host default).
 	GoMaxProcs int `json:"gomaxprocs,omitempty"`
 	// Plain: run the uninstrumented binary with real stdin and real files
